@@ -101,6 +101,19 @@ def api_cases(rng, tier):
         seqs += allseq
     for _ in range(300 if tier == "quick" else 10000):
         seqs.append(tuple(rng.choice(ops) for _ in range(rng.randint(3, 30))))
+    # every section option emptied completely - by index, by title, by path, in either order - and then used again
+    # (a new instance, a parse that mentions it, another removal) or just released with the context
+    rm_all = {"m": [["RN 0 %s 0" % hx("m")] * 3, ["RT 0 %s %s" % (hx("m"), hx("a")), "RT 0 %s %s" % (hx("m"), hx("b"))],
+                    ["RS 0 %s" % hx("m=b"), "RS 0 %s" % hx("m=a")], ["RN 0 %s 1" % hx("m"), "RN 0 %s 0" % hx("m")]],
+              "n": [["RN 0 %s 0" % hx("n")] * 3, ["RS 0 %s" % hx("n=1"), "RS 0 %s" % hx("n=0")]],
+              "u": [["RT 0 %s %s" % (hx("u"), hx("a"))], ["RN 0 %s 0" % hx("u")] * 2],
+              "one": [["RN 0 %s 0" % hx("one")], ["RS 0 %s" % hx("one")]]}
+    after = [[], ["AT 0 %s %s" % (hx("m"), hx("z"))], ["AT 0 %s %s" % (hx("u"), hx("z"))], ["PB 0 " + hx(b"n { z = 5 }\none { w = 2 }\nm q { }\nu r { }\n")],
+             ["RN 0 %s 0" % hx("m"), "RN 0 %s 0" % hx("n")], ["SO 0 %s -" % hx("n"), "SO 0 %s -" % hx("one")]]
+    for name, ways in rm_all.items():
+        for way in ways:
+            for aft in after:
+                seqs.append(("PB 0 " + hx(C09.PARSED),) + tuple(way) + tuple(aft))
     for seq in seqs:
         sp = rng.random() < 0.5
         lines = schema_lines([o for o in C09.SCHEMA if "s" not in o.cbs or o.ty == "sec"]) + ["X 0 %d" % (COMMENTS if rng.random() < 0.3 else 0)]
